@@ -1,6 +1,7 @@
 package main
 
 import (
+	"strconv"
 	"regexp"
 	"fmt"
 	"sort"
@@ -49,7 +50,6 @@ func runC07(e *Engine, r *Report, tier string) {
 
 	// D4 exemptions: symbol + kind -> reason
 	d4 := map[string]string{
-		"(x/crosschain/keeper.Keeper).isNeedOracleSetRequest|panic after LegacyNewDecFromStr()": "LegacyNewDecFromStr(Sprintf(\"%.8f\", finite float)) cannot fail: PowerDiff returns a finite value in [0,2]",
 		"(x/crosschain/keeper.Keeper).SlashOracle|panic if !found GetOracle()":                  "oracle record absent for an address taken from the oracle list read earlier in the same end-block pass",
 		"(x/gov/keeper.Keeper).Tally|Quo(next(range(alloc:currValidators))#2.DelegatorShares)":                              "verbatim cosmos-sdk x/gov tally: a bonded validator has positive DelegatorShares (x/staking removes a validator whose shares reach zero)",
 		"(x/gov/keeper.Keeper).Tally$2$1|Quo(alloc:currValidators[GetValidatorAddr(P:delegation)]#0.DelegatorShares)":         "verbatim cosmos-sdk x/gov tally: same staking invariant as above, the validator was found among the bonded ones",
@@ -68,6 +68,15 @@ func runC07(e *Engine, r *Report, tier string) {
 				// D3: panic inside a branch guarded by err != nil of a codec/validated operation is still a site; look up D4
 				if why, ok := d4[ck]; ok {
 					r.Ok("R1", ck, e.InstrPos(i), "D4 exemption: "+why)
+					return
+				}
+				// D3: panic on the error of a decimal parser whose input is a float rendered with a fixed precision that the
+				// decimal type can hold (Sprintf("%.Nf", x), N <= 18): the parse cannot fail for a finite x
+				if why, ok := fixedPrecisionDecimalParse(x); ok {
+					r.Ok("R1", ck, e.InstrPos(i), "D3: "+why)
+					return
+				} else if why != "" {
+					r.Fail("R1", ck, e.InstrPos(i), "panic on the error of a decimal parse that can fail: "+why+" — LegacyNewDecFromStr rejects more than 18 fractional digits, so a value with a long expansion halts block processing in every block")
 					return
 				}
 				// D1: panic(err) after UnmarshalInterface/Unmarshal of stored bytes
@@ -641,4 +650,39 @@ func onlySDKErrors(e *Engine, f *ssa.Function, depth int) bool {
 		}
 	}
 	return ok
+}
+
+// fixedPrecisionDecimalParse: p is `panic(...)` guarded by `err != nil` where err comes from LegacyNewDecFromStr(s). ok when s is
+// fmt.Sprintf("%.Nf", v) with a constant N <= 18. why != "" && !ok: the panic is of that kind but the rendering is not bounded.
+func fixedPrecisionDecimalParse(p *ssa.Panic) (why string, ok bool) {
+	for _, g := range GuardsOf(p) {
+		ci, k := NormCond(g)
+		if !k || ci.Op != "!=" || ci.X == nil || !isErrorType(ci.X.Type()) {
+			continue
+		}
+		ex, isEx := ci.X.(*ssa.Extract)
+		if !isEx {
+			continue
+		}
+		c, isC := ex.Tuple.(*ssa.Call)
+		if !isC || !strings.Contains(callName(c), "NewDecFromStr") || len(c.Call.Args) != 1 {
+			continue
+		}
+		arg := stripConv(c.Call.Args[0])
+		sp, isSp := arg.(*ssa.Call)
+		if !isSp || callName(sp) != "Sprintf" || len(sp.Call.Args) < 1 {
+			return "its input is not a fixed-precision rendering (fmt.Sprintf(\"%.Nf\", v))", false
+		}
+		f, isStr := constString(sp.Call.Args[0])
+		m := regexp.MustCompile(`^%\.(\d+)f$`).FindStringSubmatch(f)
+		if !isStr || m == nil {
+			return "its input is rendered with format " + strconv.Quote(f) + ", not %.Nf", false
+		}
+		n, _ := strconv.Atoi(m[1])
+		if n > 18 {
+			return fmt.Sprintf("its input is rendered with %d fractional digits, the decimal type holds 18", n), false
+		}
+		return fmt.Sprintf("input rendered with %s: at most %d fractional digits, the parse cannot fail for a finite value", f, n), true
+	}
+	return "", false
 }
